@@ -689,6 +689,8 @@ def check_loss(ctx, fi):
     """Works on the three copies of _marginal_loss: the two estimators' (loop over cliques, then over the clique's
     group, with a projection) and PublicInference's (one loop over self.measurements, no projection)."""
     ctx.analysed(fi)
+    from ._generic import default_resolved_first
+    default_resolved_first(ctx, fi)
     marg = fi.params[1]
     tops = [s for s in fi.body if isinstance(s, ast.For)]
     if len(tops) != 1:
